@@ -38,9 +38,16 @@ def r1_r3_correct_table(ctx, sym, model):
         dict(category='instructor', label='explain_blank', triggered=True, correct=False, message=''),
         dict(category='specification', label='assert_equal', triggered=True, correct=None, else_message='ok'),
         dict(category='specification', label='assert_ok', triggered=False, correct=None, else_message='ok'),
+        # visible positive-valence feedback that does not declare the submission correct; visible negative feedback
+        # that is merely kept out of the score
+        dict(category='instructor', label='partial_shown', triggered=True, muted=False, correct=None, valence=1,
+             score='+25%'),
+        dict(category='instructor', label='explain_unscored', triggered=True, correct=False, unscored=True),
+        dict(category='runtime', label='runtime_unscored', triggered=True, correct=None, unscored=True, valence=-1),
     ]
     sup = {'specification': {True: [{}]}}
-    for seq in itertools.chain(itertools.product(kinds, repeat=2), itertools.product(kinds[:8], repeat=3)):
+    for seq in itertools.chain(itertools.product(kinds, repeat=1), itertools.product(kinds, repeat=2),
+                               itertools.product(kinds[:8], repeat=3)):
         for s in ({}, sup):
             n += 1
             got, want = model.resolve(list(seq), s, {}), model.oracle(list(seq), s, {})
